@@ -68,6 +68,11 @@ func c01Oracle(c *Ctx, p *Parser, input []byte, extra [][]byte, res Parsed) {
 	}
 	c.Check("reserialise_equals_consumed", ok, p.Name, args, class,
 		fmt.Sprintf("len(input)=%d len(Bytes)=%d len(rem)=%d", len(input), len(res.Bytes), len(res.Rem)))
+	// the serialisation handed out is the caller's: writing into it (or appending to it) and
+	// serialising again must still reproduce the consumed bytes
+	if st, app := stableStruct(res.Val); app {
+		c.Check("reserialise_stable_after_caller_writes", st, p.Name, args, "", "serialising again after writing over the first result gives different bytes")
+	}
 }
 
 // the standard input streams for a parser: well-formed, field mutations, appended data,
@@ -97,6 +102,10 @@ func forInputsW(c *Ctx, p *Parser, nWell, nMut, nRaw int, f func(input []byte, e
 		}
 		f(w, extra, "wellformed", len(w))
 		f(cat(w, r.Bytes(1+r.Intn(40))), extra, "appended", len(w))
+		if i < 2 || (c.Tier == "thorough" && i < 12) {
+			// a tail longer than any 16-bit length field can describe (a netDb file, a stream)
+			f(cat(w, r.Bytes(65530+r.Intn(70000))), extra, "appended", len(w))
+		}
 		if len(w) > 0 {
 			f(w[:r.Intn(len(w))], extra, "truncated", -1)
 		}
